@@ -122,7 +122,7 @@ FAMILIES = {
     "XFUND": dict(     # coins of the OTHER denomination on the orbiter account must never fund a transfer
         mc=("MC_XFund", "MC_XFund.cfg", {"quick": {"MaxDepth": "4"}, "thorough": {"MaxDepth": "5"}}),
         gens=[("Gen_XFund", "Gen_XFund.cfg", "bfs", {"quick": dict(depth=3, consts={}), "thorough": dict(depth=4, consts={})})],
-        replays=[dict(mode="app", controls="clean,nopause", swap=False)]),
+        replays=[dict(mode="app", controls="clean,nopause", swap=False), dict(mode="instr", controls="", swap=False)]),
     "BIGSEQ": dict(
         mc=("MC_FeesBig", "MC_FeesBig.cfg", {"quick": {"Ks": "{64}"}, "thorough": {"Ks": "{64, 255}"}}),
         gens=[("Gen_BigSeq", "Gen_BigSeq.cfg", "bfs", {"quick": dict(depth=1, consts={}), "thorough": dict(depth=1, consts={})})],
@@ -162,7 +162,7 @@ PROPS = {
                 rule="non-trivial = a genesis document accepted by validation (must initialise), or a re-import step inside a history (export -> validate -> init on a cleared store -> export must be the identity); distinct = distinct (pre-state, input)"),
     "C15": dict(families=["PARSE", "REQ", "FEES"], groups=["parse"], level="model_checking", exhaustive=True,
                 rule="every document of the mutation grid (incl. unknown fields at every level, extra/duplicated root keys, wrong type URLs), of the (protocol id x attribute type x action id) grid and of the fee grid is handed to the real parser twice (acceptance, purity) and, when the public constructors accept the abstract payload, marshalled -> parsed -> compared -> re-marshalled; non-trivial = every such document; distinct = distinct abstract input"),
-    "C16": dict(families=["DENOM"], groups=["ack", "bal"], level="model_checking", exhaustive=True,
+    "C16": dict(families=["DENOM", "XFUND"], groups=["ack", "bal"], level="model_checking", exhaustive=True,
                 rule="every grid point (denom class x base x channel x amount encoding x fee/no fee) is one packet; non-trivial = a packet whose token is not a returning native (must be refused) or an accepted packet whose ICS-20 credit was recorded by the pass-through decorator; distinct = distinct abstract input x wiring"),
     "C07": dict(families=["PASS"], groups=["ack", "bal", "pause", "params", "stats"], level="exploration",
                 rule="every non-orbiter packet / acknowledgement / timeout of the alphabet, alone and inside random histories that move the orbiter state, executed on two branches of the same state (through the orbiter middleware and through the wrapped transfer application alone); non-trivial = each such differential execution; distinct = distinct (pre-state, input)"),
@@ -389,6 +389,13 @@ def attribute(prop, recs, evs, behs_by_id, wd, specdir, report, tier="quick"):
         path = os.path.join(WORK, "replay", "%s-%s.json" % (prop, sig[:10]))
         json.dump(rp, open(path, "w"), indent=1)
         ok = do_replay(path, quiet=True)
+        if ok is not True and rp["repeat"] > 1:
+            # a genuine non-determinism shows only with some probability per attempt (e.g. the iteration
+            # order of a two-element Go map differs between two processes half of the time)
+            for _ in range(6):
+                ok = do_replay(path, quiet=True)
+                if ok is True:
+                    break
         if ok is not True:
             # the violation may depend on what the same PROCESS executed before (state kept in Go
             # objects rather than in the chain state): retry with the preceding behaviours as context
